@@ -185,6 +185,20 @@ fn main() {
                 }
             }
         }
+        "replay-chain" => {
+            let txt = std::fs::read_to_string(&pos[0]).expect("chain file");
+            let c: a5sim::batch::ChainFile = serde_json::from_str(&txt).expect("chain json");
+            let wd = get(&m, "work-dir", "/verif/work/chainreplay".to_string());
+            std::fs::create_dir_all(&wd).ok();
+            match a5sim::batch::run_chain(&c, &wd) {
+                Some((i, v)) => {
+                    println!("VIOLATION property=C13 replay={}", pos[0]);
+                    println!("  world {} of the chain: {}", c.first_world + i as u64, v.line());
+                    std::process::exit(1);
+                }
+                None => println!("REPLAY clean: no world of the chain violates on the current tree"),
+            }
+        }
         "gen" => {
             // write the scenario with batch index --index as a replay file (debugging aid)
             let pool: a5sim::pool::Pool = serde_json::from_str(&std::fs::read_to_string(get(&m, "pool", String::new())).expect("pool")).expect("pool json");
